@@ -150,8 +150,6 @@ func scenarios(thorough bool) []scen {
 				[][]in{{{"set", "b", "1"}}, {{"get", "a", ""}, {"get", "a", ""}}}, false},
 			scen{"set,set|set|get", base, nil, [][]in{{{"set", "a", "1"}, {"set", "a", "2"}}, {{"set", "a", "3"}}, {{"get", "a", ""}}}, false},
 			scen{"set|del|get,get", base, []in{{"set", "a", "0"}}, [][]in{{{"set", "a", "1"}}, {{"del", "a", ""}}, {{"get", "a", ""}, {"get", "a", ""}}}, false},
-			scen{"compact:drain-into-main|get|set", base, []in{{"set", "a", "1"}, {"maint", "rf", ""}, {"maint", "l0-base", ""}, {"maint", "ingest-drain:6", ""}, {"set", "a", "2"}, {"maint", "rf", ""}, {"maint", "l0-base", ""}},
-				[][]in{{{"maint", "ingest-drain:6", ""}}, {{"get", "a", ""}, {"get", "a", ""}}, {{"set", "b", "1"}}}, false},
 			scen{"flush|get,get", base, []in{{"set", "a", "1"}, {"maint", "rotate", ""}},
 				[][]in{{{"maint", "flush", ""}}, {{"get", "a", ""}, {"get", "a", ""}}}, false},
 		)
@@ -244,6 +242,15 @@ func main() {
 		vr.Fatalf("unknown harness %q", rp.Harness)
 	}
 	scs := scenarios(r.Thorough())
+	if only := os.Getenv("VERIF_ONLY_SCEN"); only != "" { // debugging aid
+		var keep []scen
+		for _, sc := range scs {
+			if sc.name == only {
+				keep = append(keep, sc)
+			}
+		}
+		scs = keep
+	}
 	basedir := r.Scratch()
 	total := r.RunSharded(vr.Workers(), func(sh vr.ShardInfo, p *vr.Partial) {
 		dir := fmt.Sprintf("%s/w%d", basedir, sh.Index)
